@@ -252,4 +252,22 @@ Proof.
   - inversion E; subst. auto.
 Qed.
 
+(* ---- with the 32-bit guard the checker accepts less and reports the same ---- *)
+Notation check32 := (check32 scalar ssize sbool amin).
+Notation fits := (fits scalar ssize sbool).
+Lemma check32_cases (t : ty) v : check32 t = v -> v = Unknown \/ check t = v.
+Proof. unfold Layout.check32. destruct (fits Hlsl t && fits Metal t); intros <-; [right|left]; reflexivity. Qed.
+
+Theorem check32_sound (t : ty) :
+  check32 t = Accept ->
+  exists z, spec_total Hlsl t = Some z /\ spec_total Metal t = Some z /\
+            spec_fields Hlsl t 0 = spec_fields Metal t 0.
+Proof. intros H. destruct (check32_cases t _ H) as [E|E]; [discriminate|]. apply check_sound. exact E. Qed.
+
+Theorem check32_reports_truth (t : ty) hs ha ms ma :
+  check32 t = Mismatch hs ha ms ma ->
+  spec_total Hlsl t = Some hs /\ spec_total Metal t = Some ms /\ hs <> ms /\
+  option_map snd (spec_sa Hlsl t) = Some ha /\ option_map snd (spec_sa Metal t) = Some ma.
+Proof. intros H. destruct (check32_cases t _ H) as [E|E]; [discriminate|]. apply check_reports_truth. exact E. Qed.
+
 End Proofs.
